@@ -384,25 +384,8 @@ def match_known(finding, case, out):
     return False
 
 
-def shrink_candidates(case):
-    if case["kind"] == "handle":
-        p = case["path"]
-        segs = bytes(p).split(b"/")
-        for i in range(len(segs) - 1):
-            q = b"/".join(segs[:i] + segs[i + 1:])
-            c = dict(case)
-            c["path"] = list(q)
-            yield c
-    else:
-        p = case["u"]["path"]
-        for i in range(len(p)):
-            c = dict(case)
-            c["u"] = {"path": p[:i] + p[i + 1:], "query": case["u"]["query"]}
-            yield c
-        if case["u"]["query"]:
-            c = dict(case)
-            c["u"] = {"path": p, "query": []}
-            yield c
+# no shrink_candidates: the generated cases are already minimal in structure (one path, one mutation); an
+# unregistered finding would otherwise be shrunk once per failing case (a harness + coqc round per step).
 
 
 def neighbours(case, rng):
